@@ -3,11 +3,12 @@
    DELEGATECALL / STATICCALL / CREATE over a symbolic world, following SEVM.call /
    SEVM.create: the callee frame is explored to all its leaves and every leaf resumes the
    caller (halmos: sub-Exec pushed on the worklist + callback); a failing callee restores
-   the caller's world; the insufficient-funds case is a branch of its own.
+   the caller's world; the insufficient-funds case is a branch of its own, kept according to
+   Gen.GenBranch.funds_fail_keep (regenerated from SEVM.handle_insufficient_fund_case).
    Modelled as the code is AFTER the repairs of F11 (value-bearing CALL in a static frame)
    and F20 (CALLCODE needs the balance too).  No proofs in this file. *)
 From Coq Require Import ZArith List Bool.
-From HV Require Import Base.Word Spec.Evm Gen.GenJumpi Model.SymExec.
+From HV Require Import Base.Word Spec.Evm Gen.GenJumpi Gen.GenBranch Model.SymExec.
 Import ListNotations.
 Open Scope Z_scope.
 
@@ -200,7 +201,7 @@ Definition call_step (fr : frame) (w : sworld) (ctr : Z) (s : sstate) (op : Z) :
         let transfers := (op =? 241) || (op =? 242) in
         let c := TBin BLt (sw_balance w this) v in          (* balance < value *)
         let r_fail :=
-          if transfers && negb (oracle (ss_path s) c true =? R_UNSAT) then
+          if transfers && funds_fail_keep (oracle (ss_path s) c true) then
             rec fr w0 ctr (resume fr s r 0 [] ro rsz w0 ((c, true) :: ss_path s))
           else ([], false) in
         let p_ok := if transfers then (c, false) :: ss_path s else ss_path s in
@@ -238,7 +239,7 @@ Definition create_step (fr : frame) (w : sworld) (ctr : Z) (s : sstate) : rres :
             else
               let c := TBin BLt (sw_balance w this) v in
               let r_fail :=
-                if negb (oracle (ss_path s) c true =? R_UNSAT) then
+                if funds_fail_keep (oracle (ss_path s) c true) then
                   rec fr w0 ctr1 (resume fr s r 0 [] 0 0 w0 ((c, true) :: ss_path s))
                 else ([], false) in
               let p_ok := (c, false) :: ss_path s in
